@@ -25,6 +25,27 @@ def dataset(dump):
             dbs.setdefault(m.group(1), {})[m.group(2)] = (m.group(5), int(m.group(3)), "removed" if m.group(4) == "D" else "live")
     return dbs, attrs
 
+def pending_rules(net):
+    """C15's accounting wherever a cluster runs: a node never registers a pending operation for ITSELF — nobody can acknowledge it, the operation
+    stays pending for ever (an election then only gets past its wait through the timeout)"""
+    names = {}
+    for l in net.script:
+        m = re.match(r"@(\d+) RESET .*name=([^,\s]+)", l)
+        if m: names[int(m.group(1))] = m.group(2)
+    out = []
+    try:
+        for i in sorted(names):
+            if i not in getattr(net, "dead", set()): net.op(i, "DUMP")
+        dumps = dumps_of(net)
+    except Exception: return out
+    for i, d in dumps.items():
+        for l in d:
+            m = re.match(r"D pend (\S+) rc=(\d+) ac=(\d+) ?(.*)", l)
+            if m and names.get(i) and any(x.rsplit(":", 1)[0] == names[i] for x in m.group(4).split(",") if x):
+                out.append(Failure("pending-operation-registered-for-the-node-itself", f"n{i} ({names[i]}) holds `{l}`: it waits for its own acknowledgement"))
+                return out
+    return out
+
 def run(pid, lean_module, theorems, scenarios, rule, tier, seed, level="proof", assumptions=(), trusted=None, extra_cov=None):
     """scenarios: list of (name, fn(net, rng) -> list[Failure])"""
     t0 = time.time()
@@ -68,6 +89,7 @@ def run(pid, lean_module, theorems, scenarios, rule, tier, seed, level="proof", 
         rng = core.XorShift(seed * 7919 + ix + 1 + salt * 1000003)
         try:
             fails = fn(net, rng) or []
+            fails += pending_rules(net)
             dis = cluster.compare(net)
             return dict(name=name, fails=fails, dis=dis, script=list(net.script), ops=len(net.script), delivered=net.delivered,
                         hash=core.trace_hash(cluster.canon_ops(net.script, net.out)))
